@@ -76,6 +76,46 @@ func drive(c *core.Ctx, prop string, sf *env.SimFile, fo gen.FOpts, path string,
 		}
 	}
 	switch path {
+	case "bloom":
+		// the bloom filters of the file seen through a multi row group view: every
+		// written value of a filtered column is looked up. Filters that were not
+		// prefetched are read from the source by Check itself: an I/O failure there
+		// must come back as an error, never as "absent"
+		rgs := f.RowGroups()
+		if len(rgs) == 0 {
+			res.Complete = true
+			return
+		}
+		view := rgs[0]
+		if len(rgs) > 1 {
+			view = parquet.MultiRowGroup(rgs...)
+		}
+		for ci, cc := range view.ColumnChunks() {
+			bf := cc.BloomFilter()
+			if bf == nil {
+				continue
+			}
+			seen := map[string]bool{}
+			for _, v := range columnValues(model, ci) {
+				if v.IsNull() || seen[string(v.Bytes())] || len(seen) >= 24 {
+					continue
+				}
+				seen[string(v.Bytes())] = true
+				ok, err := bf.Check(v)
+				c.Step()
+				if err != nil {
+					res.Err, res.Stage = err, "bloom"
+					return
+				}
+				if !ok {
+					res.Wrong = core.Violate(prop+"/bloom-false-negative/"+path, "column %d: written value %s reported absent without error", ci, gen.FmtValue(v))
+					return
+				}
+				res.Delivered++
+			}
+		}
+		res.Complete = true
+		return
 	case "rowgroups":
 		pos := 0
 		for _, rg := range f.RowGroups() {
